@@ -21,6 +21,10 @@ type IContext struct {
 
 // Cancel 取消接口代理
 func (c *IContext) Cancel() {
+	// 已经取消过(比如同一个 Builder 被 Reset 两次)时不再回写, 否则会覆盖用户在两次 Reset 之间对变量的赋值
+	if c.p.canceled || c.p.originIface == nil {
+		return
+	}
 	*c.p.originIface = *c.p.originIfaceValue
 	c.p.canceled = true
 }
